@@ -1,12 +1,11 @@
 import BqVerif.Proofs.QasmRegs
-import BqVerif.Proofs.QasmExprBasic
 import BqVerif.Proofs.QasmPrec
-import BqVerif.Proofs.QasmStrip
+import BqVerif.Proofs.QasmText
 import BqVerif.Proofs.QasmAccept
 import BqVerif.Proofs.QasmSubst
 import BqVerif.Proofs.QasmInline
 import BqVerif.Proofs.QasmPrintParse
-import BqVerif.Proofs.QasmClean
+import BqVerif.Proofs.QasmProgram
 import BqVerif.Proofs.QasmWitness
 import BqVerif.Generated.QasmTable
 import BqVerif.Proofs.QasmTableChecks
@@ -14,22 +13,34 @@ import BqVerif.Proofs.QasmTableChecks
 
 The theorems are about the Lean model of the reader/writer (`BqVerif.Model.Qasm*`), which the
 run ties to `/repo/bqskit/ir/lang/qasm2` by comparing both on generated programs (harness/c17).
-The model follows the code as it is; where the code does not have the property, the
-full-strength statement is kept as a comment, a `_partial` theorem states what does hold and
-a `_witness` theorem (by `decide`) exhibits the failing input that the harness replays on the
-real code.
+The model follows the code as it is after the `fix:` commits 086cad2 ffca920 59fc65c face931
+a26fa84 5d5c8ac 7903c7b ef3db36 25990ec bea85d2 6cd2451 of /repo: the `_witness` theorems that
+documented the repaired defects are gone and the corresponding `_partial` theorems are now
+stated at full strength.  One `_partial`/`_witness` pair remains (`C17_gate_table_readable_*`:
+the size-generic gates `diag`, `mpry`, `mprz` are written under a spelling no table row reads).
 -/
 namespace BqVerif.C17
 open BqVerif.Qasm BqVerif.Qasm.Generated
 
 /-! ## C17_flat_index — register arithmetic -/
 
-/-- A qubit named `name[i]` with `i` inside the register lies inside the circuit. -/
+/-- **An accepted `name[i]` has `i` inside its register** (`convert_indexed_qubit`), names the
+qubit `offset(name) + i`, and that qubit lies inside the circuit. -/
+theorem C17_flat_index_checked {rs : Regs} {n : String} {i : Nat} {l : List Nat}
+    (h : argIndices rs ⟨n, some i⟩ = some l) :
+    ∃ o sz, firstIndex rs n = some o ∧ regSize rs n = some sz ∧ i < sz ∧ l = [o + i] ∧
+      o + i < totalSize rs := by
+  simp only [argIndices, Option.map_eq_some_iff] at h
+  obtain ⟨q, hq, rfl⟩ := h
+  obtain ⟨o, sz, ho, hs, hlt, rfl⟩ := indexedQubit_eq hq
+  exact ⟨o, sz, ho, hs, hlt, rfl, flat_lt_total ho hs hlt⟩
+
+/-- conversely every index inside its register is accepted -/
 theorem C17_flat_index_range {rs : Regs} {n : String} {o sz i : Nat}
     (ho : firstIndex rs n = some o) (hs : regSize rs n = some sz) (hi : i < sz) :
     argIndices rs ⟨n, some i⟩ = some [o + i] ∧ o + i < totalSize rs := by
   refine ⟨?_, flat_lt_total ho hs hi⟩
-  simp [argIndices, ho]
+  simp [argIndices, indexedQubit_of ho hs hi]
 
 /-- Different (register, index) pairs inside their registers are different qubits. -/
 theorem C17_flat_index_inj {rs : Regs} {n n' : String} {o sz i o' sz' i' : Nat}
@@ -53,17 +64,15 @@ theorem C17_flat_index_register {rs : Regs} {n : String} {l : List Nat}
       l = (List.range sz).map (· + o) :=
   regIndices_eq (by simpa [argIndices] using h)
 
-/-- Argument lists (`anylist`: bare registers and indexed qubits, any number of registers) are
-read element-wise and in order; if every index is inside its register, every qubit is inside
-the circuit. -/
+/-- Argument lists (`anylist`: any mixture of whole registers and indexed qubits, any number of
+registers) are read element-wise and in order, and every qubit is inside the circuit. -/
 theorem C17_flat_index_anylist {rs : Regs} {as : List Arg} {l : List Nat}
     (h : anylistIndices rs as = some l) :
-    (∃ ls, as.mapM (argIndices rs) = some ls ∧ l = ls.flatten) ∧
-    ((∀ a ∈ as, a.inRange rs) → ∀ q ∈ l, q < totalSize rs) :=
+    (∃ ls, as.mapM (argIndices rs) = some ls ∧ l = ls.flatten) ∧ ∀ q ∈ l, q < totalSize rs :=
   ⟨anylist_elementwise h, anylist_lt_total h⟩
 
-example : anylistIndices [("q", 2), ("r", 1)] [⟨"r", none⟩, ⟨"q", some 1⟩] = some [2, 1] := by
-  decide
+example : anylistIndices [("q", 2), ("r", 1), ("w", 2)] [⟨"w", none⟩, ⟨"r", none⟩, ⟨"q", some 1⟩]
+    = some [3, 4, 2, 1] ∧ argIndices [("q", 2), ("r", 2)] ⟨"q", some 3⟩ = none := by decide
 
 /-- `qreg` keeps register names distinct. -/
 theorem C17_qregs_nodup {V : Type} (A : Arith V) (s s' : St V) (st : Stmt V)
@@ -117,17 +126,8 @@ theorem C17_qregs_nodup {V : Type} (A : Arith V) (s s' : St V) (st : Stmt V)
       · simp at h
     · simp at h
 
-/- Full strength (FALSE of the code): every accepted `name[i]` has `i < size name`, hence
-   `(name, i) ↦ offset + i` is injective on all accepted arguments.  The reader never compares
-   the index with the register size: -/
-/-- `q[3]` with `qreg q[2]; qreg r[2];` is accepted and IS the qubit `r[1]`. -/
-theorem C17_flat_index_guard_witness :
-    argIndices [("q", 2), ("r", 2)] ⟨"q", some 3⟩ = some [3] ∧
-    argIndices [("q", 2), ("r", 2)] ⟨"r", some 1⟩ = some [3] := by decide
-
 /-- Whatever is accepted, the decoded circuit has at least one qubit and every operation has
-a non-empty location inside it (`get_circuit` / `circuit.extend` reject everything else; this
-is why an index beyond the *whole* circuit is rejected while one beyond its register is not). -/
+a non-empty location inside it. -/
 theorem C17_decoded_in_range {V : Type} (A : Arith V) (table : List BuiltinDef) (ts : List Tok)
     (d : Decoded V) (h : decodeToks A table ts = some d) :
     0 < d.numQubits ∧ ∀ op ∈ d.ops, op.loc ≠ [] ∧ ∀ q ∈ op.loc, q < d.numQubits := by
@@ -158,96 +158,61 @@ theorem C17_precedence {V : Type} (e : PE V) : pyParse (render 0 e) = some e :=
 
 /-- **What the reader evaluates**: for every token string Lark accepts — whatever tree the LALR
 automaton builds (`-a+b` is `usub(a+b)` there) — the Python source text the visitor assembles is
-the token string without its grouping parentheses.  So the reader's value of an expression is
-`eval` of Python's reading (`C17_precedence`) of `stripG ts`. -/
+that very token string, grouping parentheses included.  So the reader's value of an expression
+is `eval` of Python's reading (`C17_precedence`) of the expression's own tokens. -/
 theorem C17_reader_text {V : Type} (A : Arith V) (ts : List (ETok V)) (q : QE V)
     (h : larkParse ts = some q) :
-    flatten A q = stripG ts ∧ evalQ A q = (pyParse (stripG ts)).bind (PE.eval A) := by
-  have hf := flatten_larkParse A ts q h
+    flatten q = ts ∧ evalQ A q = (pyParse ts).bind (PE.eval A) := by
+  have hf := flatten_larkParse ts q h
   exact ⟨hf, by simp [evalQ, hf]⟩
 
 /-- **The reader accepts every well-formed expression**: Lark's parse (greedy `usub`, shift
-preferred) succeeds on the rendering of every tree (no spliced values), in particular on every
-operand/operator string `W false ts` (`larkParse_W`). -/
+preferred) succeeds on the rendering of every tree, in particular on every operand/operator
+string `W false ts` (`larkParse_W`). -/
 theorem C17_reader_accepts {V : Type} (e : PE V) (he : e.noVal = true) :
     ∃ q, larkParse (render 0 e) = some q :=
   larkParse_render e he
 
-/- Full strength (FALSE of the code): for every tree `e`, the reader's value of its rendering
-   is `e.eval` (wrong as soon as the rendering needs a grouping parenthesis,
-   `C17_expr_paren_witness`). -/
-/-- An expression whose minimal rendering needs no grouping parentheses (`stripG` leaves it
-unchanged) is accepted and read as itself — unconditionally. -/
-theorem C17_reader_paren_free_partial {V : Type} (A : Arith V) (e : PE V)
-    (he : e.noVal = true) (hfree : stripG (render 0 e) = render 0 e) :
-    ∃ q, larkParse (render 0 e) = some q ∧ pyParse (flatten A q) = some e ∧
+/-- **Every expression is read as itself**: written with the parentheses the grammar needs
+(any tree: nested parentheses, all six functions, `^`, unary minus), it is accepted and its
+value is the value of the tree. -/
+theorem C17_reader_correct {V : Type} (A : Arith V) (e : PE V) (he : e.noVal = true) :
+    ∃ q, larkParse (render 0 e) = some q ∧ pyParse (flatten q) = some e ∧
       evalQ A q = e.eval A := by
   obtain ⟨q, h⟩ := larkParse_render e he
-  have hf := flatten_larkParse A _ q h
-  rw [hfree] at hf
-  have hp : pyParse (flatten A q) = some e := by rw [hf]; exact pyParse_render e
+  have hf := flatten_larkParse _ q h
+  have hp : pyParse (flatten q) = some e := by rw [hf]; exact pyParse_render e
   exact ⟨q, h, hp, by simp [evalQ, hp]⟩
 
-example : stripG (render 0 (PE.bin .add (.neg (.lit "1")) (.pow (.lit "2") (.neg (.lit "3")))
-    : PE Int)) = render 0 (PE.bin .add (.neg (.lit "1")) (.pow (.lit "2") (.neg (.lit "3")))) ∧
-    (PE.bin .add (.neg (.lit "1")) (.pow (.lit "2") (.neg (.lit "3"))) : PE Int).noVal = true := by
-  decide
-
-/- Full strength (FALSE of the code): for every Lark tree `q`, `evalQ A q = specEvalQ A q`
-   (the reader gives an expression the value OpenQASM 2 gives it). -/
-/-- Without parenthesised sub-expressions, negative substituted values and `sqrt`/`exp`, the
-reader's value is the value of the expression: the Python text it builds is the program's
-own token string, read by the grammar of `C17_precedence`. -/
-theorem C17_expr_value_partial {V : Type} (A : Arith V) (q : QE V) (hq : q.plain A = true)
-    (hfn : ∀ e, pyParse (flattenSpec A q) = some e → e.noMissingFn = true) :
-    evalQ A q = specEvalQ A q := by
-  unfold evalQ specEvalQ
-  rw [flatten_eq_spec A q hq]
-  cases h : pyParse (flattenSpec A q) with
-  | none => rfl
-  | some e => simp [eval_eq_spec A e (hfn e h)]
-
-example : (QE.bin .add (.num "1") (.usub (.num "2")) : QE Int).plain intArith = true := by decide
-
-/-- `2*(1+2)`: the reader computes `2*1+2 = 4`, the expression means `6`. -/
-theorem C17_expr_paren_witness :
-    evalQ intArith (.bin .mul (.num "2") (.paren (.bin .add (.num "1") (.num "2")))) = some 4 ∧
-    specEvalQ intArith (.bin .mul (.num "2") (.paren (.bin .add (.num "1") (.num "2"))))
-      = some 6 := by decide
-
-/-- `sqrt(4)`: not readable (`NameError`), although it has a value. -/
-theorem C17_expr_function_witness :
-    evalQ intArith (.call .sqrt (.num "4")) = none ∧
-    evalQ intArith (.call .exp (.num "4")) = none ∧
-    (specEvalQ intArith (.call .sqrt (.num "4"))).isSome = true := by decide
+example : (PE.bin .mul (.lit "2") (.bin .add (.call .sqrt (.lit "1")) (.neg (.pow (.lit "2")
+    (.lit "3")))) : PE Int).noVal = true := by decide
 
 /-! ## C17_subst — formal parameters of user gates -/
 
 /-- **Substitution lemma** (trees): putting values in and evaluating = evaluating under the
 binding. -/
 theorem C17_subst {V : Type} (A : Arith V) (σ : Env V) (e : PE V) :
-    (e.bindEnv σ).eval A = e.evalEnv A σ :=
+    (e.bindEnv σ).eval A = e.evalEnvSpec A σ :=
   eval_bindEnv A σ e
 
-/-- The Python-level reading commutes with replacing formal names by values. -/
-theorem C17_subst_parse {V : Type} (σ : Env V) (ts : List (ETok V)) :
-    pyParse (ts.map (tokBind σ)) = (pyParse ts).map (PE.bindEnv σ) :=
-  pyParse_map σ ts
+/-- The Python-level reading of the spliced text (every bound formal replaced by `(value)`) is
+the reading of the original text with the formals bound. -/
+theorem C17_subst_parse {V : Type} (σ : Env V) (ts : List (ETok V)) (e : PE V)
+    (h : pyParse ts = some e) : pyParse (tsubst σ ts) = some (e.bindEnv σ) :=
+  pyParse_tsubst σ ts e h
 
-/- Full strength (FALSE of the code): for every body expression `q`, formals `ps`, actual
-   values `vs`: the reader's value `evalQ (substVals vs (bindIds ps q))` is the value of `q`'s
-   reading under the binding `ps ↦ vs`. -/
-/-- It is, when no actual value prints with a sign: the reader's textual substitution
-(`replace_param_ids`, `replace_param_indices`, `eval_exp_recurse`, `eval`) equals parsing the
-body expression once and binding its formals. -/
-theorem C17_subst_text_partial {V : Type} (A : Arith V) (ps : List String) (vs : List V)
-    (hnn : ∀ v ∈ vs, A.isNeg v = false) (q q' : QE V) (hsrc : q.source = true)
-    (hs : substVals vs (bindIds ps q) = some q') :
-    evalQ A q' = (pyParse (flatten A q)).bind (PE.evalEnv A (formalEnv ps vs)) :=
-  evalQ_subst A ps vs hnn q q' hsrc hs
+/-- **The reader's textual substitution is binding**: for every body expression `q` (as
+parsed), formals `ps` and actual values `vs` of any sign, the value the reader computes from
+the spliced text (`replace_param_ids`, `replace_param_indices`, `eval_exp_recurse`, `eval`) is
+the value of `q`'s parse tree with the formals bound to the actuals. -/
+theorem C17_subst_text {V : Type} (A : Arith V) (ps : List String) (vs : List V) (q q' : QE V)
+    (hsrc : q.source = true) (hs : substVals vs (bindIds ps q) = some q') (e : PE V)
+    (he : pyParse (flatten q) = some e) :
+    evalQ A q' = e.evalEnvSpec A (formalEnv ps vs) :=
+  evalQ_subst A ps vs q q' hsrc hs e he
 
-example : (∀ v ∈ [(2 : Int), 0], intArith.isNeg v = false) ∧
-    (QE.pow (.id "a") (.num "2") : QE Int).source = true := by decide
+example : (substVals [-2] (bindIds ["a"] (.pow (.id "a") (.num "2")))).bind (evalQ intArith)
+    = some 4 ∧ (QE.pow (.id "a") (.num "2") : QE Int).source = true := by decide
 
 /-- **A user-gate call is its body, inlined** — for any nesting depth: the nested operation
 the reader builds for a call unfolds (blocks opened, locations composed) to the body
@@ -257,179 +222,113 @@ theorem C17_inline {V : Type} (A : Arith V) (g : GDef V) (loc : List Nat) (vs : 
     (op : Op V) (h : buildOp A g loc vs = some op) : inlineG A g loc vs = some op.flat :=
   buildOp_inline A g loc vs op h
 
-/-- `gate g(a) x { rz(a^2) x; }  g(-2) …`: the value `-2` is spliced in as the text `-2`,
-Python reads `-2**2 = -4`; the expression means `(-2)^2 = 4`. -/
-theorem C17_subst_negative_witness :
-    (substVals [-2] (bindIds ["a"] (.pow (.id "a") (.num "2")))).bind (evalQ intArith)
-      = some (-4) ∧
-    (substVals [-2] (bindIds ["a"] (.pow (.id "a") (.num "2")))).bind (specEvalQ intArith)
-      = some 4 := by decide
+/-! ## statements -/
 
-/-! ## witnesses of the statement-level defects (token strings; the lexer is tied by the run) -/
+/-- `reset a;` resets exactly the qubits `a` names (one register, or one qubit). -/
+theorem C17_reset {V : Type} (s : St V) (a : Arg) :
+    elabReset s a = (argIndices s.qregs a).map (·.map Op.reset) := rfl
 
-/- Full strength (FALSE of the code): `reset a` resets exactly the qubits `argIndices` gives
-   for `a`; `measure a -> c` records, for every measured qubit, its circuit index. -/
-/-- `reset name[i];` resets that qubit; `reset name;` resets the whole register **when `name`
-is the first register** (otherwise `C17_reset_register_witness`). -/
-theorem C17_reset_partial {V : Type} (s : St V) (a : Arg) :
-    (∀ i, a.idx = some i → elabReset s a = (argIndices s.qregs a).map (·.map Op.reset)) ∧
-    (∀ sz rest, a.idx = none → s.qregs = (a.name, sz) :: rest →
-      elabReset s a = (argIndices s.qregs a).map (·.map Op.reset)) := by
-  constructor
-  · intro i hi
-    simp [elabReset, hi]
-  · intro sz rest hi hq
-    simp [elabReset, hi, hq, argIndices, regIndices, firstIndex, regSize]
-
-/-- `measure name -> c;` (whole registers) records circuit indices; `measure name[i] -> c[j];`
-records the circuit index **when `name` is the first register** (otherwise
-`C17_measure_key_witness`). -/
-theorem C17_measure_partial {V : Type} (s : St V) (q c : Arg) (loc : List Nat)
+/-- `measure a -> c;` records, for every measured qubit, its circuit index, and every recorded
+classical bit lies inside its register. -/
+theorem C17_measure {V : Type} (s : St V) (q c : Arg) (loc : List Nat)
     (ms : List (Nat × String × Nat)) (h : elabMeasure s q c = some (.measure loc ms)) :
-    (q.idx = none → ms.map (·.1) = loc) ∧
-    (∀ sz rest, s.qregs = (q.name, sz) :: rest → ms.map (·.1) = loc) := by
+    ms.map (·.1) = loc ∧
+      ∀ m ∈ ms, ∃ sz, regSize s.cregs m.2.1 = some sz ∧ m.2.2 < sz := by
   unfold elabMeasure at h
   split at h
   · simp at h
   · rename_i l hl
     split at h
     · rename_i qsz csz hqs hcs
-      constructor
-      · intro hi
-        simp only [hi] at h
+      cases hi : q.idx with
+      | none =>
         cases hc : c.idx with
         | none =>
-          simp only [hc] at h
+          simp only [hi, hc] at h
           split at h
           · simp at h
-          · simp only [Option.map_eq_some_iff, Op.measure.injEq] at h
+          · rename_i hne
+            simp only [bne_iff_ne, ne_eq, Decidable.not_not] at hne
+            simp only [Option.map_eq_some_iff, Op.measure.injEq] at h
             obtain ⟨o, ho, rfl, rfl⟩ := h
             simp only [argIndices, hi, regIndices, ho, hqs] at hl
             simp only [Option.some.injEq] at hl
             subst hl
-            simp [List.map_map, Function.comp_def, Nat.add_comm]
-        | some j => simp [hc] at h
-      · intro sz rest hq
-        cases hi : q.idx with
-        | none =>
-          cases hc : c.idx with
-          | none =>
-            simp only [hi, hc] at h
-            split at h
-            · simp at h
-            · simp only [Option.map_eq_some_iff, Op.measure.injEq] at h
-              obtain ⟨o, ho, rfl, rfl⟩ := h
-              simp only [argIndices, hi, regIndices, ho, hqs] at hl
-              simp only [Option.some.injEq] at hl
-              subst hl
-              simp [List.map_map, Function.comp_def, Nat.add_comm]
-          | some j => simp [hi, hc] at h
-        | some i =>
-          cases hc : c.idx with
-          | none => simp [hi, hc] at h
-          | some j =>
-            simp only [hi, hc, Option.some.injEq, Op.measure.injEq] at h
+            refine ⟨by simp [List.map_map, Function.comp_def, Nat.add_comm], ?_⟩
+            intro m hm
+            simp only [List.mem_map, List.mem_range] at hm
+            obtain ⟨i, hi', rfl⟩ := hm
+            exact ⟨csz, hcs, by simp only; omega⟩
+        | some j => simp [hi, hc] at h
+      | some i =>
+        cases hc : c.idx with
+        | none => simp [hi, hc] at h
+        | some j =>
+          simp only [hi, hc] at h
+          split at h
+          · rename_i hok
+            simp only [Option.some.injEq, Op.measure.injEq] at h
             obtain ⟨rfl, rfl⟩ := h
-            simp only [argIndices, hi, hq, firstIndex, if_true, Option.map_some,
-              Option.some.injEq] at hl
-            subst hl
-            simp
+            simp only [argIndices, hi, Option.map_eq_some_iff] at hl
+            obtain ⟨q0, _, rfl⟩ := hl
+            refine ⟨by simp, ?_⟩
+            intro m hm
+            simp only [List.mem_singleton] at hm
+            subst hm
+            exact ⟨csz, hcs, clbitOk_lt hcs hok⟩
+          · simp at h
     · simp at h
 
-example : (elabMeasure ({ qregs := [("q", 2), ("r", 1)], cregs := [("c", 2)] } : St Int)
-    ⟨"q", some 1⟩ ⟨"c", some 0⟩).map (fun o => (o.loc, o.meas)) = some ([1], [(1, "c", 0)]) ∧
-    (elabReset ({ qregs := [("q", 2), ("r", 1)] } : St Int) ⟨"q", none⟩).map
-      (fun l => l.map Op.loc) = some [[0], [1]] := by decide
-
-/-- `qreg q[2]; qreg r[3]; reset r;` resets qubits 0 and 1 (the first register). -/
-theorem C17_reset_register_witness :
+example : (elabMeasure ({ qregs := [("q", 2), ("r", 3)], cregs := [("c", 3)] } : St Int)
+    ⟨"r", some 1⟩ ⟨"c", some 2⟩).map (fun o => (o.loc, o.meas)) = some ([3], [(3, "c", 2)]) ∧
     (elabReset ({ qregs := [("q", 2), ("r", 3)] } : St Int) ⟨"r", none⟩).map
-      (fun l => l.map Op.loc) = some [[0], [1]] := by decide
+      (fun l => l.map Op.loc) = some [[2], [3], [4]] ∧
+    elabMeasure ({ qregs := [("q", 2)], cregs := [("c", 2)] } : St Int)
+      ⟨"q", some 0⟩ ⟨"c", some 5⟩ = none := by decide
 
-/-- `measure r[1] -> c[2]` on `qreg q[2]; qreg r[3]`: location 3, recorded key 1. -/
-theorem C17_measure_key_witness :
-    (elabMeasure ({ qregs := [("q", 2), ("r", 3)], cregs := [("c", 3)] } : St Int)
-      ⟨"r", some 1⟩ ⟨"c", some 2⟩).map (fun o => (o.loc, o.meas)) = some ([3], [(1, "c", 2)]) := by
-  decide
+/-- `if (c == n) qop;` is rejected (the `statement` hook raises), whatever follows. -/
+theorem C17_if_rejected {V : Type} (ts : List Tok) :
+    (pStmt (.kw "if" :: ts) : Option (Stmt V × List Tok)) = none := by
+  simp [pStmt]
 
-/-- `barrier q, r;` is rejected although each register alone is readable. -/
-theorem C17_idlist_witness :
-    anylistIndices [("q", 1), ("r", 1)] [⟨"q", none⟩, ⟨"r", none⟩] = none ∧
-    argIndices [("q", 1), ("r", 1)] ⟨"q", none⟩ = some [0] ∧
-    argIndices [("q", 1), ("r", 1)] ⟨"r", none⟩ = some [1] := by decide
+/-! ## C17_program — whole programs -/
 
-/-- `if (c == 1) h q[0];` is read exactly like `h q[0];`: the gate is applied. -/
-theorem C17_if_witness :
-    (decodeToks intArith tinyTable (hdrToks ++ qregToks "q" 1 ++
-        [.kw "if", .sym "(", .id "c", .sym "==", .num "1", .sym ")", .id "h"] ++
-        qb "q" 0 ++ [.sym ";"])).map Decoded.summary = hOnQ0 ∧
-    (decodeToks intArith tinyTable (hdrToks ++ qregToks "q" 1 ++ [.id "h"] ++
-        qb "q" 0 ++ [.sym ";"])).map Decoded.summary = hOnQ0 := by
-  constructor <;> decide
+/-- **The reader computes the reference elaboration of every program that has one.**
+`specDecodeToks` (`Model/QasmSpec.lean`) is the meaning of a program of the subset: expressions
+valued as their own token string read by the precedence grammar with all six functions, formal
+parameters bound in the tree, indices checked against their register, lists of registers read
+element-wise, `reset`/`measure` on the named register, user gates kept as source trees and
+instantiated under a binding at any nesting depth.  No side condition: any number of
+registers, any gate table, any expressions, any sign of the actual parameters.  The reference
+elaboration itself is compared with the independent Python reference and (through the decoded
+circuit) with Qiskit on every generated program of the run. -/
+theorem C17_program {V : Type} (A : Arith V) (table : List BuiltinDef) (ts : List Tok)
+    (d : Decoded V) (h : specDecodeToks A table ts = some d) : decodeToks A table ts = some d :=
+  decode_spec A table ts d h
 
-/-! ## C17_clean_program — whole programs -/
-
-/- Full strength (FALSE of the code): for every program of the subset, the reader computes the
-   reference elaboration `specDecodeToks` (`Model/QasmSpec.lean`: expressions read with their
-   parentheses and all functions, formals bound, indices checked against their register,
-   lists of registers read element-wise, `reset`/`measure` on the named register, `if`
-   rejected).  Each `_witness` theorem of this file is a counterexample. -/
-/-- **On a clean program the reader computes the reference elaboration.**  Clean
-(`CleanProgram`, `CleanStmt`, `CleanCall`, `CleanExpr`): every parameter expression is free of
-parenthesised sub-expressions and of `sqrt`/`exp`; constant expressions in gate bodies
-evaluate; every value handed to a user gate, at any depth, prints without a sign
-(`nonNegS`); argument lists have at most one leading whole register; `reset name;` and
-`measure name[i] -> c[j];` name the first register; and the program has no `if` (the reference
-rejects it).  Nothing is assumed about nesting depth, number of registers or gate table.
-The reference elaboration itself is compared with the independent Python reference on every
-generated program of the run (`spec` leg). -/
-theorem C17_clean_program_partial {V : Type} (A : Arith V) (table : List BuiltinDef)
-    (ts : List Tok) (d : Decoded V) (hc : CleanProgram A table ts)
-    (h : specDecodeToks A table ts = some d) : decodeToks A table ts = some d :=
-  decode_clean A table ts d hc h
-
-/-- non-vacuity: `OPENQASM 2.0; qreg q[2]; h q[1]; cx q[0],q[1];` is clean and has a meaning -/
-example : CleanProgram intArith tinyTable
+example : (specDecodeToks intArith tinyTable
       (hdrToks ++ qregToks "q" 2 ++ [.id "h"] ++ qb "q" 1 ++ [.sym ";", .id "cx"] ++ qb "q" 0 ++
-        [.sym ","] ++ qb "q" 1 ++ [.sym ";"]) ∧
-    (specDecodeToks intArith tinyTable
-      (hdrToks ++ qregToks "q" 2 ++ [.id "h"] ++ qb "q" 1 ++ [.sym ";", .id "cx"] ++ qb "q" 0 ++
-        [.sym ","] ++ qb "q" 1 ++ [.sym ";"])).isSome = true := by
-  refine ⟨⟨_, rfl, ?_⟩, by decide⟩
-  refine .cons trivial rfl (.cons ?_ rfl (.cons ?_ rfl (.nil _)))
-  · refine ⟨by simp, by unfold leadBareOk; decide, ?_⟩
-    intro gs vs hl _
-    simp only [SSt.lookup, lookupBuiltin, tinyTable, List.find?] at hl
-    simp at hl
-    subst hl
-    rfl
-  · refine ⟨by simp, by unfold leadBareOk; decide, ?_⟩
-    intro gs vs hl _
-    simp only [SSt.lookup, lookupBuiltin, tinyTable, List.find?] at hl
-    simp at hl
-    subst hl
-    rfl
+        [.sym ","] ++ qb "q" 1 ++ [.sym ";"])).isSome = true := by decide
 
 /-! ## C17_print_parse — the writer's format is read back -/
 
-/- Full strength: for every qubit circuit over gates with a spelling, `decode (encode c)` is
-   `c`.  Missing from the theorem below: circuits with `CircuitGate` definitions and
-   measurements (compared by the run on every generated circuit), and the step from
-   characters to tokens (checked by the driver for every text it prints); the five library
-   gates of `knownUnreadable` do not round-trip at all (`C17_gate_table_readable_witness`). -/
-/-- **Round trip of the writer's statement format through the reader** (tokens): if every
-line is `barrier q[i],…;`, `reset q[i];` or `name(p…) q[i],…;` naming a row of the table
-(`POp.Reads`) with matching arities, distinct qubits
-inside the `N`-qubit register and finite printed parameters, then reading the program the
-writer emits (`OPENQASM 2.0; include "qelib1.inc"; qreg q[N];` + the lines) gives exactly the
-operations `exp` — same gates, same locations, parameters = the values of the printed
-literals (`C17_print_parse_param`).  `lex (printProgram n ops) = programToks n ops` is
-checked by the driver on every circuit the run prints. -/
+/- Missing from the theorem below, relative to "decode (encode c) = c for every qubit circuit
+   over gates with a spelling": circuits with `CircuitGate` definitions (compared by the run on
+   every generated circuit) and the step from characters to tokens (checked by the driver for
+   every text it prints); the size-generic gates of `knownUnreadable` do not round-trip at all
+   (`C17_gate_table_readable_witness`). -/
+/-- **Round trip of the writer's format through the reader** (tokens): header, classical
+register declarations (distinct names — the writer emits each once), and lines `name(p…)
+q[i],…;` over rows of the table, `barrier q[i],…;`, `reset q[i];`, `measure q[k] -> c[i];`
+(`PLine.Reads`: matching arities, distinct qubits inside the `N`-qubit register, classical bit
+inside its declared register) are read back as exactly the operations `exp` — same gates, same
+locations, parameters = the values of the printed literals (`C17_print_parse_param`),
+measurements keyed by the measured qubit. -/
 theorem C17_print_parse_partial {V : Type} (A : Arith V) (table : List BuiltinDef) (n : Nat)
-    (hn : 0 < n) (ops : List POp) (exp : List (Op V)) (h : ReadsAll A table ops exp)
-    (hr : ∀ o ∈ ops, ∀ q ∈ o.loc, q < n) :
-    decodeToks A table (programToks n ops) = some ⟨n, [], exp⟩ :=
-  decodeToks_programToks A table n hn ops exp h hr
+    (hn : 0 < n) (cregs : Regs) (hc : (cregs.map Prod.fst).Nodup) (ls : List PLine)
+    (exp : List (Op V)) (h : ReadsAll A table n cregs ls exp) :
+    decodeToks A table (programToksM n cregs ls) = some ⟨n, cregs, exp⟩ :=
+  decodeToks_programToksM A table n hn cregs hc ls exp h
 
 /-- the parameter read back is the value of the printed decimal (sign included) -/
 theorem C17_print_parse_param {V : Type} (A : Arith V) (p : PLit) :
@@ -438,27 +337,21 @@ theorem C17_print_parse_param {V : Type} (A : Arith V) (p : PLit) :
         if p.neg then A.neg (A.ofLit me.1 me.2) else A.ofLit me.1 me.2 :=
   evalQ_lit A p
 
-example : ReadsAll intArith tinyTable
-    [⟨"rz", [⟨true, "2"⟩], [1]⟩, ⟨"barrier", [], [1, 0]⟩, ⟨"cx", [], [0, 1]⟩, ⟨"reset", [], [1]⟩]
-    [.prim "RZGate" [1] [-2], .barrier [1, 0], .prim "CNOTGate" [0, 1] [], .reset 1] :=
-  .cons (.inr (.inr ⟨by decide, by decide, by decide,
-      ⟨"rz", 1, 1, "RZGate", 1, 1⟩, [-2], rfl, rfl, rfl, rfl, rfl⟩))
-    (.cons (.inl ⟨rfl, rfl, by decide, by decide, rfl⟩)
-      (.cons (.inr (.inr ⟨by decide, by decide, by decide,
-          ⟨"cx", 0, 2, "CNOTGate", 0, 2⟩, [], rfl, rfl, rfl, rfl, rfl⟩))
-        (.cons (.inr (.inl ⟨rfl, rfl, 1, rfl, rfl⟩)) .nil)))
+example : ReadsAll intArith tinyTable 2 [("c", 2)]
+    [.op ⟨"rz", [⟨true, "2"⟩], [1]⟩, .op ⟨"barrier", [], [1, 0]⟩, .meas 1 "c" 0,
+     .op ⟨"reset", [], [1]⟩]
+    [.prim "RZGate" [1] [-2], .barrier [1, 0], .measure [1] [(1, "c", 0)], .reset 1] :=
+  .cons ⟨.inr (.inr ⟨by decide, by decide, by decide,
+      ⟨"rz", 1, 1, "RZGate", 1, 1⟩, [-2], rfl, rfl, rfl, rfl, rfl⟩), by decide⟩
+    (.cons ⟨.inl ⟨rfl, rfl, by decide, by decide, rfl⟩, by decide⟩
+      (.cons ⟨by decide, ⟨2, rfl, by decide⟩, rfl⟩
+        (.cons ⟨.inr (.inl ⟨rfl, rfl, 1, rfl, rfl⟩), by decide⟩ .nil)))
 
 /-! ## C17_gate_table — (B): the live table, regenerated on every run -/
 
-/-- Every row of `gate_defs` (except the known bad one) declares the arities of its gate, so
-`Operation(gate, location, params)` accepts what the arity checks of `gate` let through. -/
-theorem C17_gate_table_arity_partial :
-    ∀ b ∈ gateDefs, b.key ∉ knownBadRows → arityOk b = true := by decide
-
-/-- `GateDef('pxz', 1, 3, PhasedXZGate())`: 3 parameters / 1 qubit declared as 1 / 3. -/
-theorem C17_gate_table_arity_witness :
-    ∃ b ∈ gateDefs, b.key = "pxz" ∧ (b.np, b.nv) = (1, 3) ∧ (b.gnp, b.gnq) = (3, 1) := by
-  decide
+/-- **Every row of `gate_defs` declares the arities of its gate**, so `Operation(gate,
+location, params)` accepts what the arity checks of `gate` let through. -/
+theorem C17_gate_table_arity : ∀ b ∈ gateDefs, arityOk b = true := by decide
 
 /-- what an arity-correct row means for the reader: the operation is built -/
 theorem C17_gate_table_row_sound {V : Type} (A : Arith V) (b : BuiltinDef) (h : arityOk b = true)
@@ -475,8 +368,12 @@ theorem C17_gate_table_row_sound {V : Type} (A : Arith V) (b : BuiltinDef) (h : 
     · simp [h']
   simp [h1, hps, hloc, hnd, h.1, h.2]
 
+example : arityOk ⟨"pxz", 3, 1, "PhasedXZGate", 3, 1⟩ = true := by decide
+
+/- Full strength (FALSE of the code): every library gate with a spelling is readable under
+   it. -/
 /-- Every library gate that is written through the table (no definition emitted) is readable
-under the spelling the writer uses — except the known ones. -/
+under the spelling the writer uses — except the size-generic `diag`, `mpry`, `mprz`. -/
 theorem C17_gate_table_readable_partial :
     ∀ g ∈ libGates, g.kind = "table" → g.base ∉ knownUnreadable → readable g = true := by
   decide
